@@ -220,6 +220,11 @@ def handleC08Dict (q : String) (j : Json) : Except String Json := do
         ("paths", Json.arr (((pathPriors e).map (·.1)).map jsonOfPath).toArray),
         ("ids", Json.arr ((pathPriors e).map (fun x => Json.num ((x.2 : Nat) : Lean.JsonNumber))).toArray),
         ("dict", jsonOfJV (render (toDV r)))])
+  | "dbcounter" =>
+      -- member names of a collection's rows -> the counter of the rebuilt collection
+      let names ← (← getArr j "names").toList.mapM (·.getStr?)
+      let pos (n : String) : Option Nat := if n.length > 0 && n.all Char.isDigit then n.toNat? else none
+      pure (Json.mkObj [("item_number", Json.num ((nextPosition (names.map pos) : Nat) : Lean.JsonNumber))])
   | s => throw s!"bad C08 question {s}"
 
 def handleC08 (j : Json) : Except String Json := do
